@@ -342,6 +342,21 @@ def build(name, mini):
         params, fmt, ids = params_of(o["ins"])
         items_rs.append("#[pavex::error_observer(id = \"__MODU___O%d\")]\n"
                         "pub fn o%d(e: &pavex::Error%s) { log(format!(\"observer __MOD__.o%d : %s\"%s)); }" % (o["i"], o["i"], params, o["i"], fmt, ids))
+    # decoys: for the error type of every fallible component an OPT-IN handler (`default = false`) in a sub-module that the
+    # blueprint imports. `bp.import` skips opt-in handlers: they serve only the components they are attached to, so the
+    # import changes nothing (seeded change C06-5 interned them as by-type handlers: a component whose errors should reach
+    # the `pavex::Error` fallback was then answered by the decoy).
+    decoys = []
+    for tag, comps in (("c", ctors), ("h", handlers), ("m", mws)):
+        for c in comps:
+            if c.get("fallible"):
+                ety = "E%s%d" % (tag.upper(), c["i"])
+                decoys.append("    #[pavex::error_handler(id = \"__MODU___DECOY_%s\", default = false)]\n"
+                              "    pub fn decoy_%s(#[px(error_ref)] _e: &%s) -> Response { log(format!(\"eh __MOD__.decoy_%s : \")); "
+                              "Response::new(pavex::http::StatusCode::from_u16(599).unwrap()) }" % (ety.upper(), ety.lower(), ety, ety.lower()))
+    if decoys:
+        items_rs.append("pub mod decoy {\n    use super::*;\n" + "\n".join(decoys) + "\n}")
+        bp = [["raw", "{bp}.import(pavex::blueprint::from![crate::%s::decoy]);" % name]] + bp
     spec = {"name": name, "klass": "errors", "types": types, "ctors": ctors, "handlers": handlers, "mws": mws,
             "observers": [], "bp": bp, "usage": {}, "extra_items": items_rs, "mini": mini,
             "err": {"ctors": [{"i": c["i"], "life": c["life"], "ins": [x[0] for x in c["ins"]], "fallible": c["fallible"]} for c in ctors],
